@@ -132,12 +132,15 @@ impl Scenario for PortCloseScenario {
             });
             let o4 = o2.clone();
             let env4 = env.clone();
+            let n_msgs = sizes.len();
             let receiver = env.spawn("receiver", 2, async move {
                 let mut events = 0usize;
                 let mut rx = Some(rx);
                 let mut acc: Option<Vec<u8>> = None;
                 loop {
-                    if events == after && !o4.lock().unwrap().event_done {
+                    // a position beyond the last receive event means: after everything was received
+                    let all_in = o4.lock().unwrap().received.len() >= n_msgs;
+                    if (events == after || (all_in && events < after)) && !o4.lock().unwrap().event_done {
                         match event {
                             Event::Close => {
                                 rx.as_mut().unwrap().close().await;
